@@ -52,33 +52,45 @@ def export_scripts(cfgname, max_req, max_inbox, max_inject, sec=False):
     return out, res
 
 
-def replay_and_judge(chk, name, items, props=None, par=10):
-    """items: list of (cfgname, cfg, script, variant). Replays all, validates the trace in one TLC run,
-    returns list of failures: dict(cfgname, script, call=(op, consumed, model), event)."""
-    rec = trace.Recorder(name)
-    runs = []
-    for cfgname, cfg, script, variant in items:
-        a, b, calls = scripts.run_script(rec, cfg, script, variant)
-        runs.append((a, b, cfgname, script, calls))
-    rec.close()
+def replay_and_judge(chk, name, items, props=None, par=10, batch=6000):
+    """items: list of (cfgname, cfg, script, variant). Replays all in batches of `batch` scripts (each batch is validated by
+    parallel TLC runs and then dropped, so memory stays bounded however many behaviours the model exports); returns
+    (failures, recorder of the first batch, number of runs); a failure is dict(cfgname, script, call=(op, consumed, model), event)."""
     import time as _t
-    print("  replayed %d scripts, %d events" % (len(runs), rec.n), flush=True)
-    _t0 = _t.time()
-    v = trace.validate_parallel("TraceSession.tla", "TraceSession.cfg", rec.events, [(r[0], r[1]) for r in runs], k=par, name=name)
-    print("  trace validation %.1fs" % (_t.time() - _t0), flush=True)
-    for i, r in enumerate(v["results"]):
-        chk.add_tlc(r, "TraceSession(%s)#%d" % (name, i))
-    chk.traces += len(runs)
     failures = []
-    fails = sorted(v["fails"])
-    ri = 0
-    for idx in fails:
-        while ri < len(runs) and runs[ri][1] <= idx:
-            ri += 1
-        if ri >= len(runs):
-            break
-        a, b, cfgname, script, calls = runs[ri]
-        call = [c for c in calls if c[0] == idx]
-        failures.append(dict(cfgname=cfgname, script=script, event=rec.events[idx], events=rec.events[a:idx + 1],
-                             call=call[0][1:] if call else None))
-    return failures, rec, runs
+    first_rec = None
+    nruns = 0
+    nevents = 0
+    tval = 0.0
+    for bi in range(0, len(items), batch):
+        rec = trace.Recorder("%s-b%d" % (name, bi // batch) if bi else name)
+        runs = []
+        for cfgname, cfg, script, variant in items[bi:bi + batch]:
+            a, b, calls = scripts.run_script(rec, cfg, script, variant)
+            runs.append((a, b, cfgname, script, calls))
+        rec.close()
+        _t0 = _t.time()
+        v = trace.validate_parallel("TraceSession.tla", "TraceSession.cfg", rec.events, [(r[0], r[1]) for r in runs], k=par, name=name)
+        tval += _t.time() - _t0
+        for i, r in enumerate(v["results"]):
+            chk.add_tlc(r, "TraceSession(%s)#%d.%d" % (name, bi // batch, i))
+        chk.traces += len(runs)
+        nruns += len(runs)
+        nevents += rec.n
+        fails = sorted(v["fails"])
+        ri = 0
+        for idx in fails:
+            while ri < len(runs) and runs[ri][1] <= idx:
+                ri += 1
+            if ri >= len(runs):
+                break
+            a, b, cfgname, script, calls = runs[ri]
+            call = [c for c in calls if c[0] == idx]
+            failures.append(dict(cfgname=cfgname, script=script, event=rec.events[idx], events=rec.events[a:idx + 1],
+                                 call=call[0][1:] if call else None))
+        if first_rec is None:
+            first_rec = rec
+        if len(items) > batch:
+            print("  batch %d: %d scripts so far, %d events, %d failures" % (bi // batch, nruns, nevents, len(failures)), flush=True)
+    print("  replayed %d scripts, %d events; trace validation %.1fs" % (nruns, nevents, tval), flush=True)
+    return failures, first_rec, nruns
